@@ -87,6 +87,22 @@ func formatEscapeSites(p *Program) (sites []escapeSite, undecided []string) {
 			if _, isB := ci.Common().Value.(*ssa.Builtin); isB {
 				return
 			}
+			// only calls that write: a method of the format writer, or a Write* method of some writer/builder
+			isWrite := false
+			if g := ci.Common().StaticCallee(); g != nil {
+				if rv := receiverOf(g); rv != nil && typeName(deref(rv.Type())) == "formatWriter" {
+					isWrite = true
+				}
+				if strings.HasPrefix(g.Name(), "Write") {
+					isWrite = true
+				}
+			}
+			if ci.Common().IsInvoke() && strings.HasPrefix(ci.Common().Method.Name(), "Write") {
+				isWrite = true
+			}
+			if !isWrite {
+				return
+			}
 			for _, a := range ci.Common().Args {
 				if isBackslashConst(a) {
 					calls = append(calls, in)
